@@ -126,6 +126,9 @@ def jobs(tier, seed):
                               cls=cls_name, opts={'raises': 'min', 'fold': False, 'discards': ('none',)}, dev_bound=6 if not th else 7))
     for cls_name, plan in SPLIT.items():
         out.append(_j('split-two-halves', kind='split', cls=cls_name, plan=plan))
+    for cls_name, spec in V.VARIANTS.items():
+        if spec[7] == 'bring_in':
+            out.append(_j('stud-opening-rule', kind='bring-in', cls=cls_name))
     for j in out:
         j.setdefault('state_cap', 400000 if th else 60000)
         j.setdefault('time_cap', 700 if th else 60)
@@ -191,6 +194,38 @@ def run_split(job):
             'validated': 1, 'counters': {'split_scenarios': 1}, 'samples': [detail]}
 
 
+def run_bring_in(job):
+    """opening rule of the stud variants as the table states it: lowest door card brings it in (razz: highest, ace low), the
+    suit c < d < h < s breaks ties - every ordered assignment of door cards over a two-rank x four-suit sub-deck"""
+    from itertools import permutations
+    from ..refs import opener as O
+    cls_name = job['cls']
+    env.set_warnings('ignore')
+    razz = V.VARIANTS[cls_name][4][0][4] == 'HIGH_CARD'
+    viol = []
+    n_cases = 0
+    sub = [r + s for r in ('2K' if not razz else 'KA') for s in 'cdhs'] + ['7d']
+    for n in (2, 3):
+        p = params_for(cls_name, 2, 4, n)
+        p['raw_starting_stacks'] = (40,) * n
+        cfg = {'game': cls_name, 'autos': ['ANTE_POSTING', 'BET_COLLECTION', 'CARD_BURNING'], 'p': p}
+        for case in permutations(sub, n):
+            st = C.build(cfg)
+            for i in range(n):
+                st.deal_hole('????' + case[i], i)
+            n_cases += 1
+            exp = O.door_opener(list(case), razz)
+            if st.actor_index != exp:
+                viol.append({'oracle': 'opening-rule', 'detail': f'{cls_name}: door cards {case}: first to act is seat {st.actor_index}, '
+                             f'the table\'s rule ({"highest" if razz else "lowest"} door card, suits break ties) says seat {exp}',
+                             'cfg': cfg, 'events': [['deal_hole', '????' + case[i], i] for i in range(n)],
+                             'sig': ('C11', 'opening-rule', cls_name)})
+                if len(viol) > 5:
+                    break
+    return {'family': 'stud-opening-rule', 'stats': {'states': n_cases, 'transitions': n_cases * 2}, 'violations': viol[:5],
+            'validated': n_cases, 'counters': {'door_card_cases': n_cases}, 'samples': [f'{cls_name}: door cards {sub[:2]}']}
+
+
 def table_spec(cls_name, small, big):
     code, deck, hts, structure, streets, bets, cap, forced = V.VARIANTS[cls_name]
     mins = [{'small': small, 'big': big, 'min': small}[b] for b in bets]
@@ -198,6 +233,8 @@ def table_spec(cls_name, small, big):
 
 
 def run_job(job):
+    if job['kind'] == 'bring-in':
+        return run_bring_in(job)
     if job['kind'] == 'static':
         return run_static(job)
     if job['kind'] == 'split':
